@@ -496,6 +496,23 @@ theorem rangeOK_congr {o1 o2 : Opts} (h : o1.range = o2.range) (k : Option Kind)
 theorem optionsOK_congr {o1 o2 : Opts} (h : o1.options = o2.options) (k : Option Kind) (j : J) :
     optionsOK o1 k j = optionsOK o2 k j := by unfold optionsOK; rw [h]
 
+theorem resolve_inherit {c : Cfg} {po : Option Opts} {key : Str} {m : Obj} {om : Option Opts}
+    (hc : c.pinned = false) (h : resolveOpts c po key m = .ok om) : optInherit om = optInherit po := by
+  unfold resolveOpts at h
+  cases po with
+  | none => simp at h; subst h; rfl
+  | some o =>
+    simp only at h
+    obtain ⟨o', ho', rfl⟩ := exceptMap_ok h
+    unfold toOptionsWithContext at ho'
+    cases he : effOptional o key m with
+    | error e => simp [he] at ho'
+    | ok b =>
+      simp only [he] at ho'
+      split at ho'
+      · simp at ho'; subst ho'; rfl
+      · simp at ho'; subst ho'; simp [optInherit, hc]
+
 theorem fieldCore_sound {c : Cfg} {name : Str} {tag : Option Str} {isSlice : Bool} {k : Option Kind} {m : Obj}
     {wv : Option Opts → J → Except Err Val} {ar : Unit → Except Err Val} {dv : Str → Except Err Val} {z v : Val}
     {conv : J → Val → Bool} {absent : Val → Bool} {dflt : Str → Val → Bool} {isZ : Val → Bool}
@@ -529,11 +546,9 @@ theorem fieldCore_sound {c : Cfg} {name : Str} {tag : Option Str} {isSlice : Boo
         by_cases hk : key = "-".toList
         · rw [if_pos hk] at h ⊢; simp at h; subst h; exact hz
         · rw [if_neg hk] at h ⊢
-          split at h
-          · simp at h
           · change (depOK (effOpts po) key m && _) = true
-            rw [hdep, Bool.true_and]
-            cases hl : lookupKey c key m with
+            rw [hdep, Bool.true_and, ← resolve_inherit hc hr]
+            cases hl : lookupKey c (optInherit om) key m with
             | error e => simp [hl] at h
             | ok lk =>
             cases lk with
